@@ -14,5 +14,6 @@ CONSTANTS
   KindSeq <- KindsSst
   Rots = {0, 2, 4}
   Layouts <- LaySst
+INVARIANTS TypeOK PlacedByRef FunctionLike MergeBlank RootShown
 CONSTRAINT Emit
 CHECK_DEADLOCK FALSE
